@@ -139,6 +139,9 @@ impl Property for C14Heavy {
     fn shrink_budget(&self) -> usize {
         300
     }
+    fn hang_secs(&self) -> u64 {
+        900
+    }
     fn rule(&self) -> String {
         "tape -> constructed universe: trivial hard problem + 1..3 soft solvables that each stand for a pigeonhole problem (n+1, sometimes n, pigeon packages with n = 3..max hole versions; each pigeon version constrains the other pigeons away from its hole) + 1..4 soft solvables with one two-candidate dependency that nothing else mentions, the soft list in generated order, with and without hints. Oracle: solve returns a solution (the hard problem is solvable), it passes the C01 predicate with the soft exemption, a pigeonhole soft solvable with one pigeon too many is not in it, and every cheap soft solvable is in it together with its first-ranked dependency (its first-choice closure is disjoint from everything else). Non-trivial: >= 100 clauses were learnt during the solve. Distinct = distinct case.".into()
     }
